@@ -4,6 +4,7 @@ import (
 	"fmt"
 	"go/types"
 	"hash/fnv"
+	"regexp"
 	"sort"
 	"strings"
 )
@@ -15,6 +16,7 @@ type Term struct {
 	Sort string
 	T    types.Type
 	Loc  *Loc // set when the term is an address the engine tracks itself
+	Prov string // provenance of a channel value: "Struct.field" it was loaded from
 }
 
 // Loc describes where an address-valued SSA value points to.
@@ -181,8 +183,16 @@ func (ss *Sorts) structKey(t types.Type) string {
 	return "anon_" + mangle(shortTypeName(t))
 }
 
+var byteRuneRe = regexp.MustCompile(`\b(byte|rune)\b`)
+
 func (ss *Sorts) typeTag(t types.Type) int {
-	k := shortTypeName(t)
+	// byte and rune are aliases: one tag per underlying type
+	k := byteRuneRe.ReplaceAllStringFunc(shortTypeName(t), func(m string) string {
+		if m == "byte" {
+			return "uint8"
+		}
+		return "int32"
+	})
 	if v, ok := ss.typeTags[k]; ok {
 		return v
 	}
